@@ -410,11 +410,11 @@ static const char* ref_apply(HObj* h, Op* op, RefOut* out) {
             if (op->a.tag == 'N') return E_VALUE; if (op->a.tag != 'i') return E_CLASS;
             __int128 i = op->a.i; if (i < -(__int128)(s->n + 1) || i > s->n) return E_IOOB; idx = (int)(i < 0 ? s->n + 1 + i : i);
             if ((e = ref_assign(h->ty, &op->b))) { out->from_assign = 1; return e; } sh_insert(s, idx, &op->b); return NULL; }
-          if (h->kind == K_LST) {          /* the element is checked first; index 0, or an existing position */
-            if ((e = ref_assign(h->ty, &op->b))) return e;
+          if (h->kind == K_LST) {          /* the position first (0, or an existing position; fix 4077d96), then the element */
             if (op->a.tag == 'N') return E_VALUE; if (op->a.tag != 'i') return E_CLASS;
-            if (op->a.i == 0) { sh_insert(s, 0, &op->b); return NULL; }
-            if ((e = ref_index(s->n, &op->a, &idx))) return e; sh_insert(s, idx, &op->b); return NULL; }
+            if (op->a.i == 0) idx = 0; else if ((e = ref_index(s->n, &op->a, &idx))) return e;
+            if ((e = ref_assign(h->ty, &op->b))) return e;
+            sh_insert(s, idx, &op->b); return NULL; }
           if ((e = ref_index(s->n, &op->a, &idx))) return e; if (nonheap(h)) return E_VALUE; sh_insert(s, idx, &op->b); return NULL;
         case OP_POP: if (s->n == 0) return E_IOOB; if (h->kind == K_TUP && nonheap(h)) return E_VALUE; s->n--; return NULL;
         case OP_POPAT: if ((e = ref_index(s->n, &op->a, &idx))) return e; if (h->kind == K_TUP && nonheap(h)) return E_VALUE; sh_remove(s, idx); return NULL;
@@ -599,8 +599,7 @@ static int do_new(int id, char** w, int nw, int lineno) {   /* w: tokens after t
     /* reference copy of the clamped bounds: negative counts from the end, then clamp into [0, n] */
     { int64_t n = seq_shadow((int)b)->n; int64_t s0 = a0 < 0 ? n + a0 : a0, s1 = a1 < 0 ? n + a1 : a1;
       struct Range* r = ((struct Slice*)h.obj)->range; h.r0 = r->start; h.r1 = r->stop; h.r2 = r->step;
-      /* documented clamp: below 0 → 0, above n → n.  (The code maps a start that is still negative to n; the difference is
-         only reported as information: the slice is then empty either way for step > 0.) */
+      /* documented clamp: below 0 → 0, above n → n (fix a67379b); a difference is reported as information */
       int64_t d0 = s0 < 0 ? 0 : s0 > n ? n : s0, d1 = s1 < 0 ? 0 : s1 > n ? n : s1;
       if (d0 != h.r0 || d1 != h.r1) I("line=%d slice bounds clamp differently from the documented rule: got %" PRId64 "..%" PRId64 " documented %" PRId64 "..%" PRId64, lineno, h.r0, h.r1, d0, d1); }
   } else if (!strcmp(kind, "zip")) {
